@@ -14,6 +14,7 @@ import bounded.qap  # noqa: E402
 import bounded.tsplib  # noqa: E402
 import bounded.order1d  # noqa: E402
 import bounded.bp_lower_bound  # noqa: E402
+import bounded.instgen  # noqa: E402
 import contracts.bp_instance  # noqa: E402
 import contracts.order1d  # noqa: E402
 import contracts.tsplib  # noqa: E402
@@ -188,6 +189,19 @@ PLANS["C03"] = Plan(
     trusted=["assumed contracts of check_int_range and _lower_bound_damv (result >= 1)"],
 )
 
+PLANS["C17"] = Plan(
+    "C17", "other",
+    functions=["moptipyapps.binpacking2d.instgen.errors:Errors.evaluate"],
+    bounded=[bounded.instgen.harness],
+    explanation="proved: instgen.Errors.evaluate clamps its result to [0, 1] (block contract on the return statement). bounded: "
+                "post-condition of InstanceDecoder.decode monitored on templates x slack x vectors incl. the extreme values and "
+                "their float neighbours (name, bin size, item count, total area in ((min_bins-1)*A, min_bins*A], lower bound == "
+                "min_bins, repeatability), Errors == 0 for the template",
+    assumptions=["InstanceDecoder.decode (list-of-lists surgery, float-to-int selection) is not under a deductive contract: "
+                 "bounded only", "Hardness repeatability (runs inner optimisers): not covered",
+                 "'can be packed into exactly min_bins bins' is covered through the area/lower-bound pair only"],
+)
+
 PLANS["C14"] = Plan(
     "C14", "proof",
     functions=[E1 + ":__move_down", E1 + ":__move_left", E1 + ":_decode",
@@ -225,6 +239,10 @@ PLANS["C05"] = Plan(
 
 
 META = {
+    "C17": {"text": "decode post-condition monitored on a stated finite family of templates/vectors/slack values (bounded); "
+                    "clamp of the similarity objective proved",
+            "note": "level 'other': one proved clause + bounded stand-in; Hardness not covered",
+            "technique": "run-time contract monitor (bounded) + block contract (z3)"},
     "C03": {"text": "arithmetic of the bound proved on the real statement block (exact ceiling, maximum, >= area bound); validity "
                     "of the DAMV bound is an assumed theorem, backed by instances with optimum known by construction",
             "note": "level 'other': proof for the arithmetic clauses + assumption A2 + bounded harness",
